@@ -91,6 +91,11 @@ class IkeSaController:
             self.ike_sas.append(ike_sa.new_ike_sa)
             logging.info(f'IKE SA={ike_sa.new_ike_sa} created by rekey. Count={len(self.ike_sas)}')
 
+        # a responder IKE_SA that ignored its IKE_SA_INIT request (e.g. wrong INITIATOR flag) is not kept
+        if ike_sa.state == IkeSa.State.INITIAL and not ike_sa.is_initiator:
+            self.ike_sas.remove(ike_sa)
+            logging.info(f'Discarded IKE_SA={ike_sa}. Count={len(self.ike_sas)}')
+
         # if the IKE_SA needs to be closed
         if ike_sa.state == IkeSa.State.DELETED:
             ike_sa.delete_child_sas()
